@@ -1,6 +1,6 @@
 """Generator for the `flow_send` component (send side of StreamsState vs coq/Model/FlowSend.v)."""
 RULE = ("case = [new(side, remote limits, send window)] [set_params p0] early application ops "
-        "(0-RTT phase: open/write/finish/reset/transmit/loss/set_send_window/poll) "
+        "(0-RTT phase: open/write/finish/reset/transmit/Retry/set_send_window/poll) "
         "[acceptance: set_params p1 >= p0 | rejection: zero_rtt_rejected + set_params p1 | nothing] "
         "then application ops interleaved with MAX_DATA / MAX_STREAM_DATA / MAX_STREAMS / STOP_SENDING frames "
         "(lower, equal, higher, boundary values; for open, unopened, finished, reset, remote and junk ids), "
@@ -147,6 +147,10 @@ def write_size(rng, L, sid):
 
 def app_op(rng, L, early):
     k = rng.below(100)
+    if getattr(L, "owe_observe", False):
+        L.owe_observe = False
+        if rng.chance(2, 3):
+            return [19]
     if not L.local_ids() and max(L.max_streams) > 0 and rng.chance(3, 5):
         k = 0
     if k < 12:
@@ -179,6 +183,13 @@ def app_op(rng, L, early):
                 L.dirty = set()
         return [9, mb]
     if k < 88:
+        if early:
+            # no loss can be detected before the handshake; a client may receive a Retry instead
+            if L.side == 0:
+                L.next_ack = L.frames
+                L.owe_observe = True
+                return [21]
+            return [15]
         return [11, L.ack_index(rng)]
     if k < 91:
         w = rng.choice([0, 1, 100, 1000, 5000, 1 << 20, B62, (1 << 64) - 1])
@@ -225,6 +236,27 @@ def frame_op(rng, L):
     return [18, rng.below(2)]
 
 
+def lone_fin(rng, L):
+    """An early stream finished without data whose FIN was sent, then a Retry (client only)."""
+    d = rng.below(2)
+    if L.side != 0 or L.opened[d] >= L.max_streams[d]:
+        return []
+    sid = (L.opened[d] << 2) | (d << 1)
+    L.opened[d] += 1
+    L.dead.add(sid)
+    ops = [[2, d]]
+    if rng.chance(1, 3):
+        ops.append(app_op(rng, L, True))
+    ops += [[4, sid], [9, rng.choice([100, 1200, 1200, 3000])]]
+    if rng.chance(1, 3):
+        ops.append(app_op(rng, L, True))
+    ops += [[21], [19]]
+    L.next_ack = L.frames = L.frames + 2
+    if rng.chance(1, 2):
+        ops += [[9, 1200], [19]]
+    return ops
+
+
 def gen_wf(rng):
     side = rng.below(2)
     mrb = rng.choice([0, 0, 1, 2, 3])
@@ -240,6 +272,8 @@ def gen_wf(rng):
     if mode >= 2:
         for _ in range(rng.range(0, 14)):
             ops.append(app_op(rng, L, True))
+            if rng.chance(1, 30):
+                ops += lone_fin(rng, L)
         if mode < 4:
             p1 = pick_params(rng, at_least=p0)
             ops.append([1] + p1)
@@ -277,7 +311,7 @@ def gen_wild(rng):
             ops.append([14])
             L.opened = [0, 0]
         elif k < 4:
-            ops.append(rng.choice([[6, 1 << 62], [16, pick_id(rng, L), 1 << 62], [12], [10, -1], [2, 7], [8, 3, 2]]))
+            ops.append(rng.choice([[6, 1 << 62], [16, pick_id(rng, L), 1 << 62], [12], [10, -1], [2, 7], [8, 3, 2], [21], [21]]))
         elif k < 12:
             ops.append(app_op(rng, L, False))
         else:
